@@ -7,4 +7,6 @@ K(n, c, s) == [name |-> n, cls |-> c, sec |-> s]
 KeysQ == << K(1, 1, 1), K(2, 2, 1), K(3, 3, 2), K(4, 4, 2), K(5, 1, 1) >>
 \* all four classes under one secret
 KeysX == << K(1, 4, 1), K(2, 3, 1), K(3, 2, 1), K(4, 1, 1) >>
+\* a small list for the 4-connection model: one marking class of each salt size and the unmarked class
+KeysS == << K(1, 1, 1), K(2, 3, 1), K(3, 4, 1) >>
 ===============================================================================
